@@ -119,7 +119,8 @@ def cactOfJson (j : Json) : Except String CAct := do
 
 /-- the `get_handler` calls one real `glom` / `assign` / `delete` call performs (each with
     `raise_exc=True`), following `_t_eval` 'P', `_handle_list`, `_assign_op`, `Delete._del_one`
-    and `_extend_children` (keys, then get; on UnregisteredTarget: iterate) -/
+    and `_extend_children` (keys, then get; on UnregisteredTarget — also the one it raises itself
+    for instances of list / tuple / set / frozenset that only have obj-style keys — iterate) -/
 def glomCalls (H : Hier) (r : Reg) (spec : String) (t : Ty) : Reg × List Call :=
   let one (r : Reg) (op : Op) : Reg × Call :=
     let (r', a) := getHandler H r op t true
@@ -131,7 +132,11 @@ def glomCalls (H : Hier) (r : Reg) (spec : String) (t : Ty) : Reg × List Call :
       (r2, [c1, c2])
     else
       let (r2, c2) := one r1 "get"
-      if c2.ans == .unregistered then
+      -- `if keys is _ObjStyleKeys.get_keys and isinstance(item, (list, tuple, set, frozenset)):
+      --      raise UnregisteredTarget(…)`  → the iterate branch as well
+      let seqGuard := c1.ans == .ret (some "_ObjStyleKeys.get_keys") &&
+        ["list", "tuple", "set", "frozenset"].any (fun b => H.inst t b)
+      if c2.ans == .unregistered || seqGuard then
         let (r3, c3) := one r2 "iterate"
         (r3, [c1, c2, c3])
       else (r2, [c1, c2])
